@@ -3,7 +3,7 @@
    connection cannot touch another.  (Layer 2, the adapters' read loops on hostile bytes, and
    tungstenite's parser are exercised by the hostile-peer scenarios with a healthy canary
    connection beside them; the lifecycle theorem of C03 holds for ANY adapter answers.) *)
-From MIO Require Import Base Gen ListN Varint VarintProofs Decoder DecoderProofs ResId Driver DriverProofs DriverIso.
+From MIO Require Import Base Gen ListN Varint VarintProofs Decoder DecoderProofs ResId Driver DriverProofs DriverIso Wire WireProofs.
 Local Open Scope N_scope.
 
 Theorem C17_gen_obligation : varint_consts_ok = true /\ layout_ok gen_layout = true.
@@ -54,6 +54,25 @@ Theorem C17_listener_event_isolation : forall (a : N) (ls : list dlabel) (lid : 
   Forall (fun o => exists peer d, o = OEv (Message (lid, peer) d)) (snd (do_accepts s lid items)).
 Proof. exact (listener_event_isolation (proj2 C17_gen_obligation)). Qed.
 
+(* "...or disturb other connections, which keep exchanging messages normally": in TIME this holds
+   only as long as the peer lets its socket run empty.  The read loop of a stream connection
+   (tcp.rs / framed_tcp.rs receive(), on the node's only network thread) returns as soon as a
+   read finds the socket empty ... *)
+Theorem C17_receive_call_ends_when_socket_runs_empty : forall (cs : list (list N)) (rest : list rres),
+  tcp_receive (map RData cs ++ RWouldBlock :: rest) = (cs, Some RWaitNextEvent).
+Proof. exact receive_returns_when_socket_runs_empty. Qed.
+
+(* KNOWN FINDING K2 (known_findings.json): ... and not before.  For EVERY n a peer that keeps data
+   coming makes ONE receive() call hand over n chunks without returning; nothing else of the node
+   is served meanwhile (other connections, signals of a for_each node, the hand-over of the
+   listener call, stop()).  The full statement "a peer cannot delay other connections" is therefore
+   false of the faithful model and of the code (net_life: a streaming FramedTcp peer against a
+   datagram of a second peer).  Repairing it needs a per-event read budget plus re-arming the
+   edge-triggered source in all four adapters and the adapter API: not a small patch. *)
+Lemma C17_K2_read_loop_unbounded : forall (n : nat) (c : list N),
+  tcp_receive (repeat (RData c) n) = (repeat c n, None).
+Proof. exact read_loop_unbounded. Qed.
+
 (* non-vacuity: a hostile answer (three chunks then Disconnected) on connection 5 while
    connection 261 exists: 261's entry is untouched, all four events are about 5 *)
 Example C17_isolation_example :
@@ -67,4 +86,5 @@ Proof. cbv zeta. split; [unfold quiet; cbn; repeat split; repeat constructor|]. 
 Print Assumptions C17_gen_obligation.
 Print Assumptions C17_isolation.
 Print Assumptions C17_listener_event_isolation.
+Print Assumptions C17_receive_call_ends_when_socket_runs_empty.
 Print Assumptions C17_decoder_total.
